@@ -25,10 +25,10 @@ Line ==
                            /\ dial' = [d \in Dlr |-> [st |-> "idle", peer |-> NULL]] /\ pairs' = {}
        [] e.k = "end" -> e.status = "ok" /\ UNCHANGED vars
        [] e.k = "ilisten" -> Listen(e.l, e.r)
-       [] e.k = "iacccall" -> AcceptStart(e.t, e.l)
-       [] e.k = "iaccret" -> /\ acc[e.t].st = (IF e.r = "ok" THEN "got" ELSE "err")
+       [] e.k = "iacccall" -> AcceptStart(e.th, e.l)
+       [] e.k = "iaccret" -> /\ acc[e.th].st = (IF e.r = "ok" THEN "got" ELSE "err")
                              /\ (e.r # "ok" => e.r = "ErrClosed")
-                             /\ (e.r = "ok" => e.peer = acc[e.t].peer)          \* the far end is the dialer the table paired it with
+                             /\ (e.r = "ok" => e.peer = acc[e.th].peer)          \* the far end is the dialer the table paired it with
                              /\ UNCHANGED vars
        [] e.k = "idialcall" -> DialTry(e.d)
        [] e.k = "idialret" -> /\ dial[e.d].st = (CASE e.r = "ok" -> "got" [] e.r = "ErrConnRefused" -> "refused" [] e.r = "ErrBadProto" -> "badproto" [] OTHER -> "none")
